@@ -517,8 +517,18 @@ impl<'a, T> ChordsV2<'a, T> {
 
         // Clear presses from the queue if they were consumed by a chord.
         if self.active_chords.len() > prev_active_chords_len {
+            // Remove exactly the presses that formed the chord: one per participating key.
+            // A key that was released and pressed again while the chord was still pending has a
+            // second press in the queue, which is a new key press and must not vanish with it.
+            let mut consumed = accumulated_presses.clone();
             self.queue.retain(|qd| match qd.event {
-                Event::Press(_, j) => !accumulated_presses.contains(&j),
+                Event::Press(_, j) => match consumed.iter().position(|k| *k == j) {
+                    Some(pos) => {
+                        consumed.swap_remove(pos);
+                        false
+                    }
+                    None => true,
+                },
                 _ => true,
             });
         }
